@@ -122,9 +122,17 @@ def _(e, c, a):
     return {'div_ceil': -(-x // y), 'next_multiple_of': -(-x // y) * y, 'rem_euclid': x % y, 'div_euclid': x // y}[k]
 
 
-@model(r'<&?(\w+) as (Add|Sub|Mul|Div|Rem)(<.*>)?>::(add|sub|mul|div|rem)$')
+def normalize_callee(c):
+    from ..engine import normalize
+    return normalize(strip_generics(c))
+
+
+_INT_TY = r'(?:u8|u16|u32|u64|u128|usize|i8|i16|i32|i64|i128|isize)'
+
+
+@model(r'^<&?(' + _INT_TY + r') as (Add|Sub|Mul|Div|Rem)(<.*>)?>::(add|sub|mul|div|rem)$')
 def _(e, c, a):
-    m = re.match(r'<&?(\w+) as (\w+)', c.strip()); ty = m.group(1); op = m.group(2)
+    m = re.search(r'<&?(\w+) as (\w+)', normalize_callee(c)); ty = m.group(1); op = m.group(2)
     x, y = un(a[0]), un(a[1])
     if ty not in INT_W:
         raise Unmodelled('operator on ' + ty)
@@ -132,7 +140,7 @@ def _(e, c, a):
     return e.checked(op, x, y, ty, {'Add': 'add', 'Sub': 'subtract', 'Mul': 'multiply'}[op])
 
 
-@model(r'<(\w+) as (AddAssign|SubAssign|MulAssign)(<.*>)?>::\w+$')
+@model(r'^<(' + _INT_TY + r') as (AddAssign|SubAssign|MulAssign)(<.*>)?>::\w+$')
 def _(e, c, a):
     m = re.match(r'<(\w+) as (\w+)Assign', c.strip()); ty = m.group(1); op = m.group(2)
     cell = a[0].cell
@@ -698,3 +706,34 @@ def _(e, c, a):
 @model(r'^Poll::(is_ready|is_pending)$')
 def _(e, c, a):
     p = un(a[0]); return (p.variant == 0) == c.rstrip().endswith('is_ready')
+
+
+@model(r'Duration::subsec_(nanos|micros|millis)$')
+def _(e, c, a):
+    d = un(a[0]); ms = d.f[1].v
+    k = c.rstrip().split('_')[-1]
+    mul = {'nanos': 1000000, 'micros': 1000, 'millis': 1}[k]
+    if not is_sym(ms): return ms * mul
+    # sub-millisecond part is not tracked: any value consistent with the millisecond count
+    n = e.notes.get('subsec_n', 0); e.notes['subsec_n'] = n + 1
+    lo = z3.BitVec('subsec%d' % n, 32)
+    e.assume(z3.ULT(lo, mul))
+    return z3.Extract(31, 0, bv(ms, 64)) * mul + lo
+
+
+@model(r'Duration::as_(nanos|micros|millis)$')
+def _(e, c, a):
+    d = un(a[0]); s_, ms = d.f[0].v, d.f[1].v
+    k = c.rstrip().split('_')[-1]
+    mul = {'nanos': 1000000000, 'micros': 1000000, 'millis': 1000}[k]
+    if not is_sym(s_) and not is_sym(ms): return s_ * mul + ms * (mul // 1000)
+    return z3.ZeroExt(64, bv(s_, 64)) * mul + z3.ZeroExt(64, bv(ms, 64)) * (mul // 1000)
+
+
+# ---------------------------------------------------------------- std::io::Error (opaque value with a kind)
+@model(r'(?:^|::)Error::kind$')
+def _(e, c, a): return Opaque('io::ErrorKind', 'Other')
+
+
+@model(r'^<(io::)?Error as From<(io::)?ErrorKind>>::from$|^(io::)?Error::(new|other)$')
+def _(e, c, a): return Opaque('io::Error', 'from-kind')
